@@ -68,9 +68,17 @@ func (s *TFIDFSearcher) buildIndex() {
 	}
 
 	// Step 2: Build vocabulary index
+	// Assign vocabulary indices in sorted word order so that every build of the same
+	// commands produces the same index (and the same floating-point sums below).
+	vocabWords := make([]string, 0, len(wordCounts))
+	for word := range wordCounts {
+		vocabWords = append(vocabWords, word)
+	}
+	sort.Strings(vocabWords)
 	s.vocabulary = make(map[string]int)
 	vocabIndex := 0
-	for word, docCount := range wordCounts {
+	for _, word := range vocabWords {
+		docCount := wordCounts[word]
 		// Include unique terms (docCount >= 1) as they are highly discriminating
 		// Upper bound at 80% to exclude only very common terms
 		maxDocs := len(s.commands) * 8 / 10
@@ -107,8 +115,8 @@ func (s *TFIDFSearcher) buildIndex() {
 		s.commandTF[i] = make(map[int]float64)
 		var norm float64
 
-		for termIdx, count := range termCounts {
-			tf := float64(count) / float64(len(words))
+		for _, termIdx := range sortedTermIndices(termCounts) {
+			tf := float64(termCounts[termIdx]) / float64(len(words))
 			tfidf := tf * s.idf[termIdx]
 			s.commandTF[i][termIdx] = tfidf
 			norm += tfidf * tfidf
@@ -116,6 +124,17 @@ func (s *TFIDFSearcher) buildIndex() {
 
 		s.commandNorms[i] = math.Sqrt(norm)
 	}
+}
+
+// sortedTermIndices returns the keys of a term-count map in ascending order, so sums
+// over the map are accumulated in a fixed order.
+func sortedTermIndices(counts map[int]int) []int {
+	indices := make([]int, 0, len(counts))
+	for idx := range counts {
+		indices = append(indices, idx)
+	}
+	sort.Ints(indices)
+	return indices
 }
 
 // tokenize converts text into normalized tokens
@@ -164,7 +183,9 @@ func (s *TFIDFSearcher) Search(query string, limit int) []TFIDFResult {
 
 	// Calculate query TF-IDF
 	var queryNorm float64
-	for termIdx, count := range queryTermCounts {
+	queryTerms := sortedTermIndices(queryTermCounts)
+	for _, termIdx := range queryTerms {
+		count := queryTermCounts[termIdx]
 		tf := float64(count) / float64(len(queryTokens))
 		tfidf := tf * s.idf[termIdx]
 		queryVector[termIdx] = tfidf
@@ -179,7 +200,7 @@ func (s *TFIDFSearcher) Search(query string, limit int) []TFIDFResult {
 	// Calculate cosine similarity with each command
 	var results []TFIDFResult
 	for i := range s.commands {
-		similarity := s.cosineSimilarity(queryVector, queryNorm, s.commandTF[i], s.commandNorms[i])
+		similarity := s.cosineSimilarity(queryTerms, queryVector, queryNorm, s.commandTF[i], s.commandNorms[i])
 
 		if similarity > 0.01 { // Minimum similarity threshold
 			results = append(results, TFIDFResult{
@@ -191,7 +212,7 @@ func (s *TFIDFSearcher) Search(query string, limit int) []TFIDFResult {
 	}
 
 	// Sort by similarity (descending)
-	sort.Slice(results, func(i, j int) bool {
+	sort.SliceStable(results, func(i, j int) bool {
 		return results[i].Similarity > results[j].Similarity
 	})
 
@@ -204,16 +225,17 @@ func (s *TFIDFSearcher) Search(query string, limit int) []TFIDFResult {
 }
 
 // cosineSimilarity calculates cosine similarity between query and document vectors
-func (s *TFIDFSearcher) cosineSimilarity(queryVector map[int]float64, queryNorm float64,
+// queryTerms lists the keys of queryVector in ascending order; the dot product is summed in that order.
+func (s *TFIDFSearcher) cosineSimilarity(queryTerms []int, queryVector map[int]float64, queryNorm float64,
 	docVector map[int]float64, docNorm float64) float64 {
 	if queryNorm == 0 || docNorm == 0 {
 		return 0
 	}
 
 	var dotProduct float64
-	for termIdx, queryTFIDF := range queryVector {
+	for _, termIdx := range queryTerms {
 		if docTFIDF, exists := docVector[termIdx]; exists {
-			dotProduct += queryTFIDF * docTFIDF
+			dotProduct += queryVector[termIdx] * docTFIDF
 		}
 	}
 
